@@ -219,7 +219,20 @@ fn main() {
                     panic!("{} is not a tip node!", tip_name)
                 }
                 let id = node.id;
+                let mut parent = node.parent;
                 tree.prune(&id).unwrap();
+
+                // An internal node that lost all of its children is not a tip
+                // of the original tree: remove it as well (but never the root)
+                while let Some(parent_id) = parent {
+                    let parent_node = tree.get(&parent_id).unwrap();
+                    if parent_node.is_tip() && parent_node.parent.is_some() {
+                        parent = parent_node.parent;
+                        tree.prune(&parent_id).unwrap();
+                    } else {
+                        break;
+                    }
+                }
             }
 
             tree.compress().unwrap();
